@@ -109,6 +109,11 @@ class Corpus:
     def add(self, payload, labelmsm=1, keep_msg=False, lbl=True, via="ctor", frame=None, validate=1, **meta):
         rid = len(self.recs) + 1
         r, msg = decode_rec.record_decode(rid, payload, labelmsm, via=via, frame=frame, validate=validate)
+        if rid % 2 == 0:
+            # history dimension: every other record is the SECOND decode of the same bytes in this
+            # process (caches keyed by payload, state surviving a parse, ...)
+            r, msg = decode_rec.record_decode(rid, payload, labelmsm, via=via, frame=frame, validate=validate)
+            meta["second_decode"] = True
         r["lbl"] = bool(lbl)
         self.recs.append(r)
         meta["labelmsm"] = labelmsm
